@@ -74,6 +74,14 @@ func configsFor(plugin, tier string) []sweepConfig {
 		return cs
 	}
 	if tier == "thorough" {
+		if plugin == "compose" {
+			// stages x arities multiply (every adjacent pair of stages forks on type identity): deepen one dimension at a time
+			return []sweepConfig{
+				{name: "stages<=3,arity<=2", arities: []int{2, 1, 0}, shape: 2, nargs: []int{1, 2, 3, 0}, maxRuns: budget},
+				{name: "stages=2,arity=3", arities: []int{3}, shape: 2, nargs: []int{2}, maxRuns: budget},
+				{name: "stages=4,arity<=1", arities: []int{1, 0}, shape: 2, nargs: []int{4}, maxRuns: budget},
+			}
+		}
 		return []sweepConfig{{name: "default", arities: []int{2, 1, 0, 3}, shape: 2, nargs: []int{1, 2, 3, 0, 4}, maxRuns: budget}}
 	}
 	return []sweepConfig{{name: "default", arities: []int{2, 1, 0}, shape: 2, nargs: nargs, maxRuns: budget}}
